@@ -6,7 +6,8 @@ Coq theorems (Properties_C15.v), extract the FIFO machine (FifoDefs.v), run the 
 scl::Fifo and the extracted machine on the same schedules and diff cycle-accurately.
 Any broken obligation / tie difference -> search mode: plain-queue oracle (this file,
 independent of the Coq model) over the real implementation's traces.
-TransactionalFifo / FifoArray / strm::fifo: differential against python oracles only.
+TransactionalFifo (single clock): second Coq machine (FifoTxDefs.v), diffed the same way.
+FifoArray / strm::fifo: differential against python oracles only.
 """
 import sys, os
 sys.path.insert(0, os.path.join(os.path.dirname(os.path.abspath(__file__)), "..", "lib"))
@@ -316,6 +317,35 @@ def compare(implp, modelp, agg, mismatches, oracle_viol, lat_viol, xlines, sampl
             samples.append(dict(case=cline, first_events=evs[8:20]))
 
 
+def other_run(exe, drv, seed, tiername, tag="other"):
+    """TransactionalFifo / strm::fifo / FifoArray run.  Python oracles for all of them; the
+    TransactionalFifo traces are additionally diffed against the extracted machine of FifoTxDefs.v."""
+    oimpl = WORK / f"{tag}.txt"; omodel = WORK / f"{tag}_model.txt"
+    rc, out = run_harness(exe, ["other", str(seed), tiername, str(oimpl)])
+    if rc != 0:
+        return dict(error=f"harness other rc={rc}: {out[-500:]}")
+    nc, ne, viol, oerrs, kinds = oracle_other(oimpl)
+    mism = []; tx_lines = 0
+    if drv:
+        rc, out = V.run([drv, str(oimpl), str(omodel)], timeout=1200)
+        if rc != 0:
+            return dict(error=f"model driver (other) rc={rc}: {out[-500:]}")
+        hdr = None; idx = 0; bad_hdr = None
+        with open(oimpl) as fa, open(omodel) as fb:
+            for a, b in zip(fa, fb):
+                a = a.rstrip("\n"); b = b.rstrip("\n")
+                if a.startswith("T"):
+                    hdr = a; idx = 0; continue
+                if a.startswith("t "):
+                    tx_lines += 1
+                    if a != b and bad_hdr != hdr:
+                        bad_hdr = hdr
+                        mism.append(dict(case=hdr, event=idx, observed=a, expected=b))
+                idx += 1
+    return dict(cases=nc, events=ne, kinds=dict(kinds), construction_errors=oerrs[:5], viol=viol, mismatches=mism,
+                transactional_cycles_diffed_against_coq_machine=tx_lines)
+
+
 def replay_one(exe, drv, cline, tag="replay"):
     impl = WORK / f"{tag}_impl.txt"; model = WORK / f"{tag}_model.txt"
     rc, out = run_harness(exe, ["replay", str(impl)] + cline.replace("|", " ").split())
@@ -355,13 +385,11 @@ def main():
                 still = mm + ov + lv + xl
         elif cline and cline.startswith("T"):
             # other FIFO flavours are regenerated from (seed, tier) by the harness' `other` mode
-            oimpl = WORK / "replay_other.txt"
-            rc, out = run_harness(exe, ["other", str(rp.get("seed", seed)), rp.get("tier", tiername), str(oimpl)])
-            if rc != 0:
-                still.append(f"harness other rc={rc}: {out[-300:]}")
+            orr = other_run(exe, drv, rp.get("seed", seed), rp.get("tier", tiername), tag="replay_other")
+            if "error" in orr:
+                still.append(orr["error"])
             else:
-                _, _, ov, _, _ = oracle_other(oimpl)
-                still = [v for v in ov if v["case"] == cline]
+                still = [v for v in orr["viol"] + orr["mismatches"] if v["case"] == cline]
         else:
             still.append("replay names no concrete case (theorem / build level failure): run the check itself")
         print(json.dumps(dict(replay=cline, still_failing=bool(still), details=still[:2]), indent=1, default=str))
@@ -421,15 +449,15 @@ def main():
     mismatches += gray_mm
 
     # ---------------- other FIFO flavours: differential against plain queues only
-    oimpl = WORK / "other.txt"
-    rc, out = run_harness(exe, ["other", str(seed), tiername, str(oimpl)])
     other = dict(cases=0, events=0, kinds={}, construction_errors=[])
-    other_viol = []
-    if rc != 0:
-        errors.append(f"harness other rc={rc}: {out[-500:]}")
+    other_viol = []; tx_mismatches = []
+    orr = other_run(exe, drv, seed, tiername)
+    if "error" in orr:
+        errors.append(orr["error"])
     else:
-        nc, ne, other_viol, oerrs, kinds = oracle_other(oimpl)
-        other = dict(cases=nc, events=ne, kinds=dict(kinds), construction_errors=oerrs[:5])
+        other_viol = orr.pop("viol"); tx_mismatches = orr.pop("mismatches")
+        other = orr
+    mismatches += tx_mismatches
 
     # ---------------- verdict
     tie_broken = bool(mismatches) or drv is None or not res["ok"] or bool(errors) or bool(xlines) or bool(lat_viol)
@@ -510,11 +538,12 @@ def main():
                                  step_push=agg["classes"].get("ev_P", 0), step_pop=agg["classes"].get("ev_O", 0),
                                  step_both_or_single=agg["classes"].get("ev_B", 0),
                                  latency1_write_first_cases=sum(v for kk, v in agg["cfg"].items() if " L=1 " in kk))
-    cov["other_fifos_differential_only"] = other
+    cov["other_fifos"] = other
     cov["search_mode"] = search_info
     cov["explanation"] = ("Theorems are universal (all depths 2^k, latencies, schedules, dual-clock interleavings incl. both metastable capture outcomes). "
-                          "The sampled part is only the correspondence FifoDefs.v <-> scl::Fifo. TransactionalFifo, FifoArray and strm::fifo have NO Coq "
-                          "machine: they are exercised against python queue oracles only.")
+                          "The sampled part is only the correspondence FifoDefs.v <-> scl::Fifo and FifoTxDefs.v <-> scl::TransactionalFifo (single clock). "
+                          "FifoArray, strm::fifo and the dual-clock TransactionalFifo have NO Coq machine: they are exercised against python queue oracles only "
+                          "(dual-clock TransactionalFifo not at all: its only test in the repository is commented out).")
     rep.assumptions += [
         "FifoDefs.v is a hand transcription of Fifo.h/cdc.cpp; its agreement with the code is established by the sampled cycle-accurate diff only",
         "reference simulator semantics (registers, memory ports, clock edge ordering) are taken as the meaning of the generated circuit (C01/C04/C07 cover them)",
